@@ -16,6 +16,10 @@ LITTLE = T.const('little')
 
 
 def wallet_obj(cls, master, testnet):
+    """wallet over the node, built by the class's own constructor (whatever fields it has today)"""
+    from . import common as _c
+    if _c.PROGRAM is not None:
+        return mk_wallet(_c.PROGRAM, 'ecdsa', master, testnet, cls=cls)
     return T.obj(cls, dict(master=master, testnet=testnet, mnemonic=T.NONE, password=T.NONE, bip85=T.NONE))
 
 
